@@ -104,8 +104,9 @@ def gen_graph(rng):
   main.rules.append(rule('All', [['col0', x]], {'or': [atom(n, x) for n in used]}))
   if len(used) >= 2:
     main.rules.append(rule('Both', [['col0', x]], AND(atom(used[0], x), atom(used[1], x))))
-  roots = 1 if rng.random() < 0.7 else 2
-  return {'shape': shape, 'mods': mods, 'main': main, 'order': paths, 'roots': roots}
+  roots = 1 if rng.random() < 0.6 else 2
+  return {'shape': shape, 'mods': mods, 'main': main, 'order': paths, 'roots': roots,
+          'decoys': roots == 2 and rng.random() < 0.6}
 
 
 def module_text(m, printer):
@@ -118,16 +119,30 @@ def module_text(m, printer):
 
 def write_graph(g, root):
   pr = G.Printer()
-  roots = [os.path.join(root, 'r%d' % i) for i in range(g['roots'])]
+  # the order of the root list is what counts, not the names of the roots: half of the time the first root
+  # sorts after the second
+  names = ['r%d' % i for i in range(g['roots'])]
+  if g['roots'] == 2 and g.get('decoys'):
+    names = ['w_first', 'd_second']
+  roots = [os.path.join(root, n) for n in names]
   for r in roots:
     os.makedirs(r, exist_ok=True)
   for i, p in enumerate(g['order']):
     m = g['mods'][p]
-    r = roots[i % len(roots)]
-    path = os.path.join(r, *p.split('.')) + '.l'
+    k = i % len(roots)
+    if g.get('decoys'):
+      k = 0 if i % 3 else k
+    path = os.path.join(roots[k], *p.split('.')) + '.l'
     os.makedirs(os.path.dirname(path), exist_ok=True)
     with open(path, 'w') as f:
       f.write(module_text(m, pr))
+    if g.get('decoys'):
+      # a different file of the same module path under every later root: it must never be read
+      for r2 in roots[k + 1:]:
+        path2 = os.path.join(r2, *p.split('.')) + '.l'
+        os.makedirs(os.path.dirname(path2), exist_ok=True)
+        with open(path2, 'w') as f:
+          f.write(module_text(m, pr).replace(' in [', ' in [77, '))
   main_text = '@Engine("sqlite");\n' + module_text(g['main'], pr)
   return main_text, (roots[0] if len(roots) == 1 else roots)
 
@@ -284,7 +299,7 @@ def run(ck):
       model = next(mi) if mode == 'PY' else None
       files = {p: module_text(g['mods'][p], G.Printer()) for p in g['order']}
       nontriv = any(real[q]['kind'] == 'ok' and real[q]['rows'] for q in preds)
-      ck.case([main_text, files, mode], nontriv, ['shape:' + g['shape'], 'parser:' + mode, 'roots:%d' % g['roots']] +
+      ck.case([main_text, files, mode], nontriv, ['shape:' + g['shape'], 'parser:' + mode, 'roots:%d' % g['roots']] + (['shadowed-module-in-later-root'] if g.get('decoys') else []) +
               (['alias'] if any(a for _, _, a in g['main'].imports) else []))
       ck.corr('imports-vs-flattened', len(preds))
       for q in preds:
